@@ -4,7 +4,7 @@
     Run with the target directory as working directory. *)
 Require Import ExtrOcamlBasic.
 From Coq Require Import List NArith ZArith.
-From PQ Require Import Bytes BitExpr Bitpack Varint RleSpec Rle Schema Dremel Plain Stats MetaTypes Thrift Meta Writer FileSpec Io Reader.
+From PQ Require Import Bytes BitExpr Bitpack Varint RleSpec Rle Schema Dremel Plain Stats MetaTypes Thrift Meta Writer FileSpec Io Reader Introspect.
 
 Extraction "model.ml"
   Bitpack.pack Bitpack.unpack Bitpack.spec_pack
@@ -14,4 +14,5 @@ Extraction "model.ml"
   Meta.enc_page_header Meta.dec_page_header Meta.enc_file_meta Meta.dec_file_meta
   Writer.run_history Writer.run_fault Writer.file_bytes Writer.nonempty_batches
   FileSpec.check_file FileSpec.view_records FileSpec.chunk_entries
-  Io.mk_src Reader.read_all_src.
+  Io.mk_src Reader.read_all_src
+  Introspect.read_metadata Introspect.page_headers Introspect.page_headers_at_offset.
